@@ -142,13 +142,24 @@ func newRig(rec *hlib.Recorder, name string, prefill, fillerBase int) *rig {
 	return r
 }
 
-func kindMatches(k int) bool { return k == 1 || k == 2 }
-func kindKeeps(k int) bool   { return k == 1 || k == 3 }
+// filter kinds: 1 keepAll 2 onceAll 3 never(keep) 4 onceNever 5 odd ids (keep) 6 ids divisible by 3 (keep)
+func kindMatches(k int, id uint32) bool {
+	switch k {
+	case 1, 2:
+		return true
+	case 5:
+		return id%2 == 1
+	case 6:
+		return id%3 == 0
+	}
+	return false
+}
+func kindKeeps(k int) bool { return k == 1 || k == 3 || k == 5 || k == 6 }
 
 func (r *rig) makeHandler(tag, kind, capacity int) int {
 	h := &hnd{tag: tag, kind: kind, queue: make(chan *net.Message, capacity)}
 	filter := func(hdr *net.Header) (bool, bool) {
-		m, k := kindMatches(kind), kindKeeps(kind)
+		m, k := kindMatches(kind, hdr.ID), kindKeeps(kind)
 		vhook.Emit("endpoint", r.ep, "filter", "k", tag, "matched", m, "keep", k)
 		return m, k
 	}
@@ -477,7 +488,7 @@ func cmdStress(args []string) {
 						if tag > 100 { // TraceEndPoint_stress.cfg: MaxHandlers = 128 (incl. fillers)
 							continue
 						}
-						kind := 1 + lr.Intn(4)
+						kind := 1 + lr.Intn(6)
 						capacity := 1 + lr.Intn(3)
 						if lr.Intn(2) == 0 {
 							capacity = total + 1 // never blocks
@@ -556,7 +567,26 @@ func cmdStress(args []string) {
 		}
 		vhook.Emit("endpoint", r.ep, "quiesce")
 		// harness-level observation: every handler closed exactly once, queue closed,
-		// messages received = a strictly increasing subsequence of the ids fed
+		// messages received = exactly the messages the trace says were delivered to it
+		// (a strictly increasing subsequence of the ids fed, selected by its filter)
+		evs := rec.Take()
+		deliveredTo := map[int][]int{} // slot-independent: handler id -> message ids
+		tagOfH := map[int]int{}
+		pendTag := -1
+		for _, e := range evs {
+			if e.Comp != "endpoint" || (e.Inst != r.inst && e.Inst != 0) {
+				continue
+			}
+			switch e.Ev {
+			case "announce":
+				pendTag = hlib.Num(hlib.KV(e, "k"))
+			case "make":
+				tagOfH[hlib.Num(hlib.KV(e, "h"))] = pendTag
+			case "deliver":
+				t := tagOfH[hlib.Num(hlib.KV(e, "h"))]
+				deliveredTo[t] = append(deliveredTo[t], hlib.Num(hlib.KV(e, "id")))
+			}
+		}
 		r.hsMu.Lock()
 		tags := []int{}
 		for t := range r.hs {
@@ -578,9 +608,16 @@ func cmdStress(args []string) {
 					break
 				}
 			}
+			if fmt.Sprint(ids) != fmt.Sprint(deliveredTo[t]) && !(len(ids) == 0 && len(deliveredTo[t]) == 0) {
+				res.Fail("endpoint/queue-content", fmt.Sprintf("handler tag %d holds %v, the dispatcher reported %v", t, ids, deliveredTo[t]), cse)
+			}
+			for _, id := range ids {
+				if !kindMatches(h.kind, uint32(id)) {
+					res.Fail("endpoint/foreign-message", fmt.Sprintf("handler tag %d (filter kind %d) received message %d", t, h.kind, id), cse)
+				}
+			}
 		}
 		r.hsMu.Unlock()
-		evs := rec.Take()
 		lines += writeTrace(out, evs, r.inst)
 		res.Evaluations++
 		shapes[fmt.Sprint(workers, nmsg, endMode, len(tags))] = true
